@@ -89,8 +89,14 @@ def very_slow_reach():
             yield dict(kind="solver", game=g, theta=1e-6)
 
 
+def corridor_cases():
+    for game, vals, T in games.corridor_games():
+        yield dict(kind="solver", game=game, theta=1e-6, known=dict(pstar=vals, T=T))
+
+
 def planted_cases():
     yield from very_slow_reach()
+    yield from corridor_cases()
     for k in (2, 4, 6, 8):
         for q_num in (2, 4, 6):
             for owner in (PR, P1, P2):
@@ -223,8 +229,9 @@ def phases(tier):
 
 
 def sample_view(case):
-    if case.get("kind") == "board":
-        return case
+    if "known" in case:
+        return dict(kind=case["kind"], theta=case.get("theta"), n_states=len(case["game"]["players"]),
+                    first_states=case["game"]["transition_list"][:6], note="deep corridor, abbreviated")
     return case
 
 
@@ -323,7 +330,9 @@ def compare_exact(v, game, facts, phat, pstar, theta, sweeps, label):
 
 def check_small(case, v):
     game = case["game"]
-    facts = GameFacts(game)
+    facts = GameFacts(game, known=case.get("known"))
+    if "known" in case:
+        v.key = dict(n=len(game["players"]), first=game["transition_list"][:8], owner=game["players"][0])
     try:
         pstar = facts.pstar
     except OracleError as e:
